@@ -14,7 +14,7 @@ def txvis_nontrivial(script, impl):
     for ws, out in _ops(script, impl):
         if out.startswith('ok reads='):
             return int(out.split()[1].split('=')[1]) >= 100
-        if out.startswith('ok failed=True'):
+        if out.startswith('ok failed=true'):
             return True
     return False
 
